@@ -72,6 +72,8 @@ class Executor(ValueOps, InstrOps):
         self.max_depth = self.opts.get("max_depth", 60)
         self.recursion_bound = self.opts.get("recursion", 3)
         self.solver = z3.Solver()
+        self.light = z3.Solver()
+        self.light.set("rlimit", 3000000)  # NB: no z3 "timeout": its timer threads spin on sched_yield and wreck parallel runs
         self.solver_nassume = 0
         self.nqueries = 0
         self.solver_time = 0.0
@@ -92,8 +94,45 @@ class Executor(ValueOps, InstrOps):
         c = b_implies(guard, cond)
         if c is True:
             return
-        self.assumes.append(to_z3_bool(c))
+        zc = to_z3_bool(c)
+        self.assumes.append(zc)
         self.assume_desc.append(desc)
+        # light solver: only small assumptions (cheap over-approximation used for feasibility / range queries)
+        try:
+            if self._small_term(zc, 60):
+                self.light.add(zc)
+        except Exception:
+            pass
+
+    def _small_term(self, t, budget):
+        """true if the DAG of t has at most `budget` nodes"""
+        seen = set()
+        stack = [t]
+        while stack:
+            x = stack.pop()
+            i = x.get_id()
+            if i in seen:
+                continue
+            seen.add(i)
+            if len(seen) > budget:
+                return False
+            stack.extend(x.children())
+        return True
+
+    def feasible_light(self, guard):
+        """over-approximate feasibility using only the small assumptions (never reports infeasible wrongly)"""
+        if guard is True:
+            return True
+        if guard is False:
+            return False
+        t0 = time.time()
+        self.light.push()
+        self.light.add(guard)
+        r = self.light.check()
+        self.light.pop()
+        self.nqueries += 1
+        self.solver_time += time.time() - t0
+        return r != z3.unsat
 
     def _sync_solver(self):
         while self.solver_nassume < len(self.assumes):
@@ -107,11 +146,15 @@ class Executor(ValueOps, InstrOps):
             return False
         if not self.opts.get("feasibility", True):
             return True
+        if not self.feasible_light(guard):
+            return False
+        if self.opts.get("feasibility") == "light":
+            return True
         self._sync_solver()
         t0 = time.time()
         self.solver.push()
         self.solver.add(guard)
-        self.solver.set("timeout", self.opts.get("feas_timeout_ms", 5000))
+        self.solver.set("rlimit", self.opts.get("feas_rlimit", 5000000))
         r = self.solver.check()
         self.solver.pop()
         self.nqueries += 1
